@@ -1,7 +1,9 @@
 """C07 — kinematic variables mean what their names say, in every topology.
 
 Flow:  T1  bridge/symgen_C07.py -> Gen_C07.v (Phi, Theta, InvariantMass trees of the current code)
+                                     + Gen_C07_dalitz.v (theta_a^ab of the 3-body topologies)
        proofs  C07_lemmas.v (about coq/theories/Kin.v), C07_analytic.v (about Gen_C07), C07.v
+               background chain: Gen_C19.v, C19_lemmas.v, C07_dalitz_lemmas.v, C07_dalitz.v (clause 3)
        T2  bridge/tie_C07.py: Kin.v (vm_compute) vs HelicityAdapter.create_expressions()
        search  bridge/search_C07.py (numeric, independent oracle bridge/frames.py)
 """
@@ -31,7 +33,10 @@ TRUSTED = [
     "(BoostZMatrix(|P|/E(P)) * RotationYMatrix(-Theta(P)) * RotationZMatrix(-Phi(P)) per frame)",
     "what the matrices compute on numbers is C08's subject; here only checked numerically against bridge/frames.py "
     "(independent axis-projection + boost evaluator in longdouble)",
-    "bridge/symexec.py for the T1 trees (Phi, Theta, InvariantMass through the generated NumPy code, one event)",
+    "bridge/symexec.py for the T1 trees (Phi, Theta, InvariantMass, theta_a^ab through the generated NumPy code, one event)",
+    "clause 3 reuses coq/theories/Dpd.v (gram/cosf, tree reader) and coq/props/C19_lemmas.v (is_event, interior, "
+    "scat_i_j_ok) with bridge/symgen_C19.py; the three relabelled 3-body topologies are built by symgen_C07.py from "
+    "create_isobar_topologies(3)[0]",
 ]
 
 
@@ -80,18 +85,77 @@ def _tie(chk):
     return ok
 
 
+DALITZ_FILES = ["Gen_C07_dalitz.v", "Gen_C19.v", "C19_lemmas.v", "C07_dalitz_lemmas.v", "C07_dalitz.v"]
+
+
+def _dalitz_start(chk, have_gen, gen_out):
+    """Clause 3 (theta = Dalitz closed form) is compiled as its own chain, in the background, so that a
+    failure there cannot mask the other obligations.  Reuses C19's regenerated trees and lemmas."""
+    thms = chk.theorem_names(os.path.join(checklib.COQ_PROPS, "C07_dalitz.v"))
+    chk.obligations.extend(thms)
+    if not have_gen:
+        chk.broken.append({"file": "symgen_C07.py", "item": "regeneration of the helicity-angle trees (dalitz)",
+                           "coqc_output": gen_out[-1500:]})
+        return None
+    rc, out, _ = chk.bridge("symgen_C19.py", [os.path.join(chk.build, "Gen_C19.v")])
+    if rc != 0:
+        chk.broken.append({"file": "symgen_C19.py", "item": "regeneration of formulate_scattering_angle (dalitz)",
+                           "coqc_output": out[-1500:]})
+        return None
+    chk.copy_props(["C19_lemmas.v", "C07_dalitz_lemmas.v", "C07_dalitz.v"])
+    flags = " ".join(checklib.COQFLAGS)
+    script = " && ".join(f"timeout 900 coqc {flags} {f} > {f[:-2]}.dout 2>&1" for f in DALITZ_FILES)
+    chk.checker_cmds.append("coqc -Q coq/theories AV -Q build/C07 AVchk " + " ".join(DALITZ_FILES))
+    return subprocess.Popen(["bash", "-c", script], cwd=chk.build), thms
+
+
+def _dalitz_finish(chk, handle):
+    if handle is None:
+        return False
+    proc, thms = handle
+    proc.wait()
+    for f in DALITZ_FILES:
+        if not os.path.exists(os.path.join(chk.build, f[:-2] + ".vo")):
+            try:
+                out = open(os.path.join(chk.build, f[:-2] + ".dout")).read()
+            except OSError:
+                out = "not compiled"
+            item = chk.failing_item(os.path.join(chk.build, f), out)
+            chk.broken.append({"file": f, "item": f"{item} (dalitz chain)", "coqc_output": out[-1500:]})
+            return False
+    out = open(os.path.join(chk.build, "C07_dalitz.dout")).read()
+    before = set(chk.axioms)
+    chk.parse_assumptions(out)
+    bad = [a for a in chk.axioms if a not in checklib.STD_AXIOMS]
+    if bad:
+        chk.broken.append({"file": "C07_dalitz.v", "item": "Print Assumptions", "coqc_output": f"non-standard axioms: {bad}"})
+        chk.axioms = before
+        return False
+    chk.discharged.extend(thms)
+    return True
+
+
 def run(chk):
     chk.assumptions += [
         "final-state ids are single digits (the name rendering is not injective beyond that)",
         "theorems are about the abstract term a variable is bound to; the numbers the frame matrices produce are "
         "covered by C08's theorems and by the numeric harness here, not proved in C07",
-        "the 3-body Dalitz closed form (formulate_scattering_angle) is compared numerically only (not proved)",
+        "clause 3 (C07_dalitz.v): 3-body event in the parent rest frame, E_i > 0, p_i^2 >= 0, momenta not collinear, the "
+        "isobar not exactly along z (there the code yields nan: known finding angle_nan_subsystem_along_z); exact reals, "
+        "floating point only sampled by the harness",
         "angles are compared where they are well conditioned (tolerance from an input-perturbation estimate); "
         "events with a tolerance above 1e-3 (phi at a pole, subsystem at rest) are skipped and counted",
     ]
     # ---- T1 + proofs
     proofs_ok = False
-    rc, out, _ = chk.bridge("symgen_C07.py", [os.path.join(chk.build, "Gen_C07.v")])
+    gen_main = os.path.join(chk.build, "Gen_C07.v")
+    gen_dal = os.path.join(chk.build, "Gen_C07_dalitz.v")
+    rc, out, _ = chk.bridge("symgen_C07.py", [gen_main, gen_dal])
+    have_dal = rc == 0 and os.path.exists(gen_dal)
+    dal_out = out
+    if rc != 0:  # the dalitz trees are written last: see whether the rest regenerates on its own
+        rc, out, _ = chk.bridge("symgen_C07.py", [gen_main])
+    dalitz = _dalitz_start(chk, have_dal, dal_out)        # background chain
     if rc != 0:
         chk.obligations.extend(chk.theorem_names(os.path.join(checklib.COQ_PROPS, "C07.v")))
         chk.broken.append({"file": "symgen_C07.py", "item": "model regeneration", "coqc_output": out[-1500:]})
@@ -99,6 +163,7 @@ def run(chk):
         proofs_ok = chk.compile_chain(["Gen_C07.v"], ["C07_lemmas.v", "C07_analytic.v"], "C07.v", timeout=900)
     # ---- T2
     tie_ok = _tie(chk)
+    proofs_ok = _dalitz_finish(chk, dalitz) and proofs_ok
     # ---- numeric harness / failing-input search
     n = 400 if chk.tier == "thorough" else 32
     if not (proofs_ok and tie_ok):
